@@ -102,10 +102,11 @@ def finish(ctx: Ctx, level_text: str = "") -> int:
     for i in ctx.instances:
         per_rule[i.rule] = per_rule.get(i.rule, 0) + 1
     short = [f"{r}: {per_rule.get(r, 0)} < floor {f}" for r, f in ctx.floors.items() if per_rule.get(r, 0) < f]
-    if short:
+    viols = [i for i in ctx.instances if not i.ok]
+    if short and not [v for v in viols if v.key not in known_keys]:
+        # only a run that would otherwise pass is refused; genuine violations are reported as such
         raise AnalysisError("rule instance floor not met (vacuous pass refused): " + "; ".join(short))
 
-    viols = [i for i in ctx.instances if not i.ok]
     new, listed = [], []
     seen = set()
     for v in viols:
